@@ -117,22 +117,25 @@ Definition call_head : val := match forms_of tcall with x :: _ => x | _ => VNil 
 
 (* the loop: every list, any accumulator whose final value is representable; the recursive call is a
    tail call - it runs at the SAME depth d - and the fuel is linear in the length *)
-Lemma mlength_runs : forall xs nv n g st d, has_prelude st -> d + 3 <= MAXD -> getv nv = VNum n -> (0 <= n)%Z ->
+(* the value the loop returns: the accumulator itself for the empty list, a plain number otherwise *)
+Definition ml_result (xs : list val) (nv : val) (n : Z) : val :=
+  match xs with [] => nv | _ :: _ => VNum (n + Z.of_nat (List.length xs)) end.
+
+Lemma ml_result_num xs nv n : getv nv = VNum n -> getv (ml_result xs nv n) = VNum (n + Z.of_nat (List.length xs)).
+Proof. intros H. destruct xs; cbn [ml_result]; [rewrite H; cbn; f_equal; lia|reflexivity]. Qed.
+
+Lemma mlength_runs_exact : forall xs nv n g st d, has_prelude st -> d + 3 <= MAXD -> getv nv = VNum n -> (0 <= n)%Z ->
   in_i64 (n + Z.of_nat (List.length xs)) = true ->
-  exists st' r, eval_loop (2 * List.length xs + 8 + g) st ml_body (ml_env (vec_to_list xs) nv) pm d = (st', ROk r) /\
-                getv r = VNum (n + Z.of_nat (List.length xs)) /\ has_prelude st'.
+  exists st', eval_loop (2 * List.length xs + 8 + g) st ml_body (ml_env (vec_to_list xs) nv) pm d = (st', ROk (ml_result xs nv n)) /\ has_prelude st'.
 Proof.
   induction xs as [|x xs IH]; intros nv n g st d Hg Hd Hnv Hn Hi.
-  - (* things = (): the condition is nil, the else branch is n *)
-    change (vec_to_list []) with VNil.
+  - change (vec_to_list []) with VNil.
     destruct (loop_if 2 (5 + g) st ml_body (ml_env VNil nv) d if_head cond_form tcall else_form VNil Hg eq_refl eq_refl eq_refl eq_refl)
       as (st1 & Hg1 & Hif); [arg_local|].
     destruct (loop_local (6 + g) st1 else_form (Named (s "n")) nv (ml_env VNil nv) d Hg1 eq_refl eq_refl eq_refl) as (st2 & He & Hg2).
-    exists st2, nv. split; [|split; [|exact Hg2]].
-    + change (2 * List.length (@nil val) + 8 + g)%nat with (S (2 + (5 + g))). rewrite Hif. cbn [is_nil getv]. exact He.
-    + rewrite Hnv. cbn [List.length]. f_equal. lia.
-  - (* things = (x . xs): the then branch calls -length on (cdr things) and n + 1, in tail position *)
-    change (vec_to_list (x :: xs)) with (VCons x (vec_to_list xs)). set (L := VCons x (vec_to_list xs)).
+    exists st2. split; [|exact Hg2].
+    change (2 * List.length (@nil val) + 8 + g)%nat with (S (2 + (5 + g))). rewrite Hif. cbn [is_nil getv]. exact He.
+  - change (vec_to_list (x :: xs)) with (VCons x (vec_to_list xs)). set (L := VCons x (vec_to_list xs)).
     destruct (in_i64_step n (List.length xs) Hn Hi) as [Hi1 Hi2].
     destruct (loop_if 2 (2 * List.length xs + 7 + g) st ml_body (ml_env L nv) d if_head cond_form tcall else_form L Hg eq_refl eq_refl eq_refl eq_refl)
       as (st1 & Hg1 & Hif); [arg_local|].
@@ -144,15 +147,23 @@ Proof.
     + reflexivity.
     + constructor; [apply ev_cdr_things; lia|]. constructor; [apply (ev_add_n L nv n); [lia|exact Hnv|exact Hi1]|constructor].
     + reflexivity.
-    + destruct (IH (VNum (n + 1)%Z) (n + 1)%Z g st2 d Hg2 Hd eq_refl ltac:(lia) Hi2) as (st3 & r & Hrec & Hr & Hg3).
-      exists st3, r. split; [|split; [|exact Hg3]].
-      * replace (2 * List.length (x :: xs) + 8 + g)%nat with (S (2 + (2 * List.length xs + 7 + g))) by (cbn [List.length]; lia).
-        rewrite Hif. cbn [is_nil getv L].
-        replace (2 + (2 * List.length xs + 7 + g))%nat with (S (4 + (2 * List.length xs + 4 + g))) by lia.
-        rewrite Hcall.
-        replace (4 + (2 * List.length xs + 4 + g))%nat with (2 * List.length xs + 8 + g)%nat by lia.
-        exact Hrec.
-      * rewrite Hr. f_equal. cbn [List.length]. lia.
+    + destruct (IH (VNum (n + 1)%Z) (n + 1)%Z g st2 d Hg2 Hd eq_refl ltac:(lia) Hi2) as (st3 & Hrec & Hg3).
+      exists st3. split; [|exact Hg3].
+      replace (2 * List.length (x :: xs) + 8 + g)%nat with (S (2 + (2 * List.length xs + 7 + g))) by (cbn [List.length]; lia).
+      rewrite Hif. cbn [is_nil getv L].
+      replace (2 + (2 * List.length xs + 7 + g))%nat with (S (4 + (2 * List.length xs + 4 + g))) by lia.
+      rewrite Hcall.
+      replace (4 + (2 * List.length xs + 4 + g))%nat with (2 * List.length xs + 8 + g)%nat by lia.
+      rewrite Hrec. f_equal. f_equal. cbn [ml_result]. destruct xs as [|y ys]; cbn [ml_result List.length]; f_equal; lia.
+Qed.
+
+Lemma mlength_runs : forall xs nv n g st d, has_prelude st -> d + 3 <= MAXD -> getv nv = VNum n -> (0 <= n)%Z ->
+  in_i64 (n + Z.of_nat (List.length xs)) = true ->
+  exists st' r, eval_loop (2 * List.length xs + 8 + g) st ml_body (ml_env (vec_to_list xs) nv) pm d = (st', ROk r) /\
+                getv r = VNum (n + Z.of_nat (List.length xs)) /\ has_prelude st'.
+Proof.
+  intros xs nv n g st d Hg Hd Hnv Hn Hi. destruct (mlength_runs_exact xs nv n g st d Hg Hd Hnv Hn Hi) as (st' & H & Hg').
+  exists st', (ml_result xs nv n). split; [exact H|]. split; [apply ml_result_num; exact Hnv|exact Hg'].
 Qed.
 
 
